@@ -36,7 +36,7 @@ func init() {
 		assumptions: []string{
 			"claimed for the fault/configuration slice: arbitrary byte strings are reached only through stored-byte faults applied to generated and corpus projects, not through a grammar fuzzer",
 			"exponential macro expansion (2^n pastes from n lines) is inherent in the language and not generated",
-			"a run is a hang when it exceeds the per-job watchdog (120 s wall; typical runs take < 5 ms) and does so again when re-executed alone in a fresh process",
+			"a run is a hang when it exceeds the per-job watchdog (20 s wall; typical runs take < 5 ms) and does so again when re-executed alone in a fresh process",
 		},
 	}
 	evidenceInfo["C14"] = evInfo{
